@@ -42,7 +42,9 @@ fn main() {
     if args[0] == "--dump" {
         let text = std::fs::read_to_string(&args[1]).unwrap();
         let v: serde_json::Value = serde_json::from_str(&text).unwrap();
-        checks::common::dump_case(&v["case"]);
+        if !checks::c20::dump(&v["case"]) {
+            checks::common::dump_case(&v["case"]);
+        }
         return;
     }
     if args[0] == "--child" {
